@@ -155,7 +155,67 @@ def _subst(case, sbx):
     return case
 
 
+def run_pathres(case):
+    """One world of PathRes.tla (a destination pre-state with symbolic links + one metafile entry whose
+    elements may be hostile) replayed into the real rebuild: model path <<"s", ...>> = <sandbox>/..."""
+    sbx = new_sandbox("pr")
+    try:
+        w, v, P = case["world"], case["version"], case["P"]
+        rec = {"id": case["id"], "op": "pathres", "clauses": list(case["clauses"]), "version": v, "P": P, "status": "ok",
+               "world": {k: w[k] for k in ("dirs", "files", "links", "dest", "entry")},
+               "touched": [], "outside_ops": [], "outside_changed": [], "denied": [], "count": -1}
+        real = lambda p: os.path.join(sbx, *p[1:]) if p and p[0] == "s" else os.path.join(sbx, "abs", "elsewhere", *p)
+        for d in sorted(w["dirs"], key=len):
+            os.makedirs(real(d), exist_ok=True)
+        for f in w["files"]:
+            write_file(real(f), b"old: 6")
+        for lp, lt in w["links"]:
+            os.makedirs(os.path.dirname(real(lp)), exist_ok=True)
+            os.symlink(real(lt), real(lp))
+        elem = lambda e: ("/" + real(e["comps"]).lstrip("/") if e["abs"] else "/".join(e["comps"]))
+        entry = [elem(e) for e in w["entry"]]
+        data = content("pathres/f", P + 5)
+        raw = refenc.build(entry[0], [(entry[1:], data)], P, v, single=False)
+        mpath = os.path.join(sbx, "metas", "t.torrent")
+        write_file(mpath, raw)
+        write_file(os.path.join(sbx, "search", "k0", entry[-1]), data)
+        os.makedirs(os.path.join(sbx, "abs"), exist_ok=True)
+        before = snapshot(sbx)
+        dest = real(w["dest"][:1]) if False else os.path.join(sbx, *w["dest"][1:])      # spelled as given (may contain "..")
+        fstrace.start([sbx])
+        try:
+            with _SortedListing():
+                from torrentfile.rebuild import Assembler
+                asm = Assembler([mpath], [os.path.join(sbx, "search")], dest)
+                rec["count"] = asm.assemble_torrents()
+        except SystemExit as ex:
+            rec["status"] = "exit:%s" % ex.code
+        except Exception as ex:
+            rec["status"] = "exc:" + type(ex).__name__
+        finally:
+            log = fstrace.stop()
+        if not isinstance(rec["count"], int):
+            rec["count"] = -1
+        after = snapshot(sbx)
+        changed = sorted(r for r in set(before) | set(after) if before.get(r) != after.get(r))
+        rec["touched"] = [["s"] + r.split(os.sep) for r in changed]
+        rdest = os.path.realpath(os.path.join(sbx, "dest"))
+        rec["outside_changed"] = sorted(hexs(r) for r in changed if not (r + os.sep).startswith("dest" + os.sep))
+        rec["denied"] = sorted(hexs(p) for p in log["denied"])
+        for e in log["log"]:
+            if e["kind"] == "denied":
+                continue
+            ap = os.path.realpath(e["path"])
+            if not (ap == rdest or ap.startswith(rdest + os.sep)):
+                rec["outside_ops"].append({"kind": e["kind"], "path": hexs(os.path.relpath(ap, sbx))})
+        return rec
+    finally:
+        rm(sbx)
+
+
 def run_rebuild(case):
+    if case.get("op") == "pathres":
+        return run_pathres(case)
     sbx = new_sandbox("rb")
     try:
         case = _subst(case, sbx)
@@ -179,6 +239,9 @@ def run_rebuild(case):
             # (the second metafile of a batch carries an upper-case extension)
             mpath = os.path.join(mdir, "t%d.%s" % (ti, "TORRENT" if ti == 1 else "torrent"))
             sub = {k: v2 for k, v2 in dict(case, tree=tree).items() if k != "meta_name" or (ti == 0 and v2 is not None)}
+            # a batch may mix piece lengths and versions: per-torrent overrides
+            sub["P"] = tree.get("P", sub["P"])
+            sub["version"] = tree.get("version", sub["version"])
             st = build_metafile(sub, proot, mpath)
             if st != "ok":
                 rec["status"] = "create:" + st
